@@ -66,6 +66,10 @@ func DateFromString(data string) (*Date, error) {
 		return nil, fmt.Errorf("Invalid date string: %s", data)
 	}
 
+	if year < 0 || year > 9999 || month < 1 || month > 12 || day < 1 || day > 31 {
+		return nil, fmt.Errorf("Invalid date string: %s", data)
+	}
+
 	dd := &Date{
 		Year:  int32(year),
 		Month: int32(month),
